@@ -11,6 +11,24 @@ CHECKS = {
         technique="property-based testing: grammar-based generation + round-trip + differential recogniser",
         design="DESIGN.md section 2 C16",
     ),
+    "C04": dict(
+        text="Generated-input search over executable programs with adversarial layouts (dead code branching/calling into live code, back edges, branch to next line, branch/call as last instruction, structured and unstructured subroutines). Two oracles: validity predicates of tealer's blocks against an independently built reference CFG, and every concrete reference-interpreter execution (accepted or rejected) must be a walk in tealer's graph with matched call/return. Exploration.",
+        note="Trusted: vf/rcfg.py (reference CFG from the flat instruction list), vf/ravm.py (reference interpreter, self-tested in setup), generator emits assembler-valid programs by construction.",
+        technique="property-based testing: differential against reference CFG + execution-trace walk check",
+        design="DESIGN.md section 2 C04",
+    ),
+    "C05": dict(
+        text="Generated-input search over structured programs with 0-6 subroutines; tealer's subroutine set, block membership, exit/retsub blocks, callee and return point of each call site, caller/return-point tables (Subroutine and Function) and the call-graph DOT export are compared with the reference CFG. Exploration.",
+        note="Trusted: vf/rcfg.py; the statement's silence on whether a callsub that is the last instruction is an exit block is honoured (both accepted).",
+        technique="property-based testing: differential against reference CFG, DOT export parsed back",
+        design="DESIGN.md section 2 C05",
+    ),
+    "C20": dict(
+        text="Generated-input search over programs x labels x patterns (windows of the program text, mutated/absent, overlapping); reported matches must equal the reference set of reachable straight-line occurrences, and 'covered' must lie between 'on a simple path from the label to a match' and 'can reach a match'. Exploration.",
+        note="Trusted: vf/rcfg.py instruction graph; windows whose verdict differs between 'consecutive in source' and 'unique successor chain' are excluded by construction and counted; the lower bound on covered uses simple paths only (weakest reading of the statement).",
+        technique="property-based testing: reference-model comparison over an instruction graph",
+        design="DESIGN.md section 2 C20",
+    ),
 }
 
 NOT_BUILT = "check not built yet in this session (work in progress; see DESIGN.md section 2 for the planned oracle)"
